@@ -158,6 +158,58 @@ class _TwoInFree(torch.nn.Module):
 TWOIN = {'add': _TwoInAdd, 'dw': _TwoInDw, 'free': _TwoInFree}
 
 
+# ----------------------------------------------------------------------------------------------
+# networks whose OUTPUT is not produced by a single layer: the layers whose channels reach an output unchanged must keep their width
+# ----------------------------------------------------------------------------------------------
+def _mk_out(dim, kind):
+    nn = torch.nn
+    Conv = nn.Conv1d if dim == 1 else nn.Conv2d
+    Pool = nn.MaxPool1d if dim == 1 else nn.MaxPool2d
+    sz = (8,) if dim == 1 else (6, 6)
+
+    class _Out(torch.nn.Module):
+        def __init__(self):
+            super().__init__()
+            self.c0 = Conv(3, 4, 3, padding='same')          # hidden, prunable (keeps the exploration non-vacuous)
+            self.c1 = Conv(4, 3, 3, padding='same')
+            self.c2 = Conv(4, 2, 1)
+            self.c3 = Conv(4, 3, 3, padding='same')
+            self.pool = Pool(3, stride=1, padding=1)
+
+        def forward(self, x):
+            h = torch.relu(self.c0(x))
+            if kind == 'cat':
+                return torch.cat([self.c1(h), self.c2(h)], dim=1)
+            if kind == 'cat-post':
+                return torch.relu(torch.cat([torch.relu(self.c1(h)), self.pool(self.c2(h))], 1))
+            if kind == 'cat-nested':
+                return torch.cat([torch.cat([self.c1(h), self.c2(h)], dim=1), self.c3(h)], dim=-2 if dim == 1 else -3)
+            if kind == 'cat-flat':
+                return torch.flatten(torch.cat((self.c1(h), self.c2(h)), 1), 1)
+            if kind == 'cat-with-hidden':
+                # the hidden tensor itself is part of the output: c0 must keep its width too
+                return torch.cat([h, self.c2(h)], 1)
+            if kind == 'tuple':
+                return self.c1(h), self.c2(h)
+            if kind == 'tuple-cat':
+                return torch.cat([self.c1(h), self.c2(h)], 1), self.c3(h)
+            raise ValueError(kind)
+
+        @staticmethod
+        def inputs(g):
+            return (torch.randn(3, 3, *sz, generator=g),)
+    _Out.__doc__ = f'{dim}D, output structure "{kind}" over c1 / c2 / c3 applied to h = relu(c0(x))'
+    _Out.full = {'cat': {'c1', 'c2'}, 'cat-post': {'c1', 'c2'}, 'cat-nested': {'c1', 'c2', 'c3'}, 'cat-flat': {'c1', 'c2'},
+                 'cat-with-hidden': {'c0', 'c2'}, 'tuple': {'c1', 'c2'}, 'tuple-cat': {'c1', 'c2', 'c3'}}[kind]
+    return _Out
+
+
+OUT_KINDS = ['cat', 'cat-post', 'cat-nested', 'cat-flat', 'cat-with-hidden', 'tuple', 'tuple-cat']
+for _d in (1, 2):
+    for _k in OUT_KINDS:
+        TWOIN[f'out{_d}d-{_k}'] = _mk_out(_d, _k)
+
+
 class _Star:
     """calls a two-input network on a tuple (so that the one-input oracle code can be re-used)"""
     def __init__(self, net):
@@ -177,9 +229,9 @@ def _run_twoin(case, seed):
     xs = cls.inputs(torch.Generator().manual_seed(seed + 11))
     with torch.no_grad():
         y0 = model(*xs)
-    ssig = 'two-in-' + case['model']
+    ssig = ('two-in-' if not case['model'].startswith('out') else 'hand-') + case['model']
     try:
-        pit = PIT(model, input_example=tuple(t[:1] for t in xs))
+        pit = PIT(model, input_example=tuple(t[:1] for t in xs) if len(xs) > 1 else xs[0][:1])
     except Exception as e:
         res.update(states=1, evals=1, outcomes=['conversion-raises'])
         res['violations'].append({'kind': 'conversion-raises', 'sig': 'conversion-raises/' + ssig, 'msg': f'PIT() raised {type(e).__name__}: {e}', 'case': base_case})
@@ -237,6 +289,10 @@ def _raw_handles(pit):
     return fms, tms
 
 
+def _shapes(y):
+    return tuple(tuple(t.shape) for t in y) if isinstance(y, (tuple, list)) else tuple(y.shape)
+
+
 def _check_state(pit, prog, x, y0, full, star=False, nograd=False):
     """-> list of (kind, msg)"""
     if nograd:
@@ -272,8 +328,8 @@ def _check_state(pit, prog, x, y0, full, star=False, nograd=False):
     try:
         with torch.no_grad():
             y = exp(*x) if star else exp(x)
-        if tuple(y.shape) != tuple(y0.shape):
-            bad.append(('output-shape-changed', f'exported network returns {tuple(y.shape)}, original {tuple(y0.shape)}'))
+        if _shapes(y) != _shapes(y0):
+            bad.append(('output-shape-changed', f'exported network returns {_shapes(y)}, original {_shapes(y0)}'))
     except Exception as e:
         bad.append(('exported-net-does-not-run', f'{type(e).__name__}: {str(e)[:200]}'))
     # the summary read BEFORE the export and the one read after it must both describe the exported network
